@@ -36,7 +36,7 @@ func runStack(t *rapid.T, col *ev.Collector, prop string, specs []mwSpec, stack 
 	if err != nil {
 		hx.Fail(t, ev.Failure{Property: prop, Signature: "session-start", Clause: "the middleware stack starts a session", Case: desc, Observed: err.Error()})
 	}
-	defer s.End()
+	defer func() { s.End() }()
 	states := make([]*mwState, len(specs))
 	for i, sp := range specs {
 		states[i] = newMwState(sp)
@@ -44,7 +44,26 @@ func runStack(t *rapid.T, col *ev.Collector, prop string, specs []mwSpec, stack 
 	tg := targetsOf(specs)
 	atLimit, aboveLimit = map[int]bool{}, map[int]bool{}
 	n := rapid.IntRange(4, 14).Draw(t, "nmsgs")
+	// with a stateful (quota) middleware in the stack the connection may be replaced by a
+	// new one half way: the new connection starts from a clean slate
+	reconnectAt := -1
+	if tg.quota && rapid.Bool().Draw(t, "reconnect") {
+		reconnectAt = rapid.IntRange(1, n-1).Draw(t, "reconnect_at")
+	}
 	for i := 0; i < n; i++ {
+		if i == reconnectAt {
+			desc.Messages = append(desc.Messages, "connection ends (subscriptions left open), a new connection starts")
+			if err := s.End(); err != nil {
+				hx.Fail(t, ev.Failure{Property: prop, Signature: "session-end", Clause: "the session ends after cancel", Case: desc, Observed: err.Error()})
+			}
+			s, err = rig.Start()
+			if err != nil {
+				hx.Fail(t, ev.Failure{Property: prop, Signature: "session-start", Clause: "the middleware stack starts a second session", Case: desc, Observed: err.Error()})
+			}
+			for j, sp := range specs {
+				states[j] = newMwState(sp)
+			}
+		}
 		if rapid.IntRange(0, 3).Draw(t, fmt.Sprintf("m%d.dir", i)) == 0 {
 			// downstream server messages
 			k := rapid.IntRange(1, 3).Draw(t, fmt.Sprintf("m%d.nsrv", i))
